@@ -4,6 +4,7 @@ import AdfObdd.OpsModel
 import AdfObdd.CountsDef
 import AdfObdd.Cubes
 import AdfObdd.WfCheck
+import AdfObdd.MemoCheck
 /-! protocol handler of the diagram-store family: the algorithmic model (`= …` answers) is the
     proved `Store`; the specification (`~ …` answers) is the truth-table layer `TT`. -/
 namespace Drv
@@ -175,7 +176,8 @@ def bddStep (b : BddSt) (l : String) (ws : List String) : Option (List String ×
     some ([l, "~ " ++ joinWith "|" ((TT.classes b.tts.toList).map (showNats ","))], b)
   | "memocheck" :: t :: rest =>
     match parseTable t with
-    | some ns => some ([l, s!"= audit {memoCheck b.nv b.exception ns rest}"], b)
+    -- the verdict comes from the VERIFIED checker (C11.memo_audit_sound); the older function only words a negative verdict
+    | some ns => some ([l, s!"= audit {MemoCheck.verdict b.nv b.exception ns rest (fun _ => memoCheck b.nv b.exception ns rest)}"], b)
     | none => some ([l, "= bad-request"], b)
   | _ => none
 
